@@ -9,7 +9,7 @@
    Proofs in Loop/C04Proofs.v (invariant Inv4 over every step of every schedule, on top of the
    lifecycle invariant of Loop/WorldProofs.v).  Statements, pins, non-vacuity, assumptions only. *)
 From Coq Require Import List Arith Bool.
-From RV Require Import Loop.World Loop.Checks Loop.WorldProofs Loop.PickProofs Loop.C04Proofs.
+From RV Require Import Loop.World Loop.Checks Loop.WorldProofs Loop.PickProofs Loop.C04Proofs Loop.TraceOracleProofs.
 Import ListNotations.
 
 (* For every world of scripted actors (arbitrary callback bodies and results: Ok / Err / panic,
@@ -106,6 +106,35 @@ Qed.
 Theorem C04_containment : forall w l j,
   subject l <> Some j -> option_map a_pc (get (step w l) j) = option_map a_pc (get w j).
 Proof. exact containment. Qed.
+
+(* a terminal event already sent is handled before any later user message: under every schedule,
+   whenever supervisor s starts a MESSAGE handler, every child spawn-linked to s whose post_start
+   was entered and whose callbacks are over (post_stop returned, a callback failed, or a callback
+   was cancelled by kill / abort) has had its terminal event handled by s *)
+Theorem C04_terminal_first_sound : forall cfgs msgs ls,
+  check_C04_terminal_first (map c_link cfgs) (trace_of (run (init cfgs msgs) ls)) = true.
+Proof. exact terminal_first_sound. Qed.
+
+Theorem C04_terminal_first_driver_programs : forall cfgs msgs rounds fuel order ops,
+  check_C04_terminal_first (map c_link cfgs)
+    (trace_of (run_dops rounds fuel order (init cfgs msgs) ops)) = true.
+Proof. exact terminal_first_sound_dops. Qed.
+
+(* a failing callback never escapes the actor: in EVERY reachable world (settled or not) an actor
+   one of whose callbacks after pre_start returned Err or panicked has a join handle that completed
+   normally (the TJoin is logged in the very step of the failure) *)
+Theorem C04_join_sound : forall cfgs msgs ls n,
+  check_C04_join n (trace_of (run (init cfgs msgs) ls)) = true.
+Proof. exact join_sound. Qed.
+
+Theorem C04_join_driver_programs : forall cfgs msgs rounds fuel order ops n,
+  check_C04_join n (trace_of (run_dops rounds fuel order (init cfgs msgs) ops)) = true.
+Proof. exact join_sound_dops. Qed.
+
+Check (C04_terminal_first_sound : forall cfgs msgs ls,
+  check_C04_terminal_first (map c_link cfgs) (trace_of (run (init cfgs msgs) ls)) = true).
+Check (C04_join_sound : forall cfgs msgs ls n,
+  check_C04_join n (trace_of (run (init cfgs msgs) ls)) = true).
 
 Check (C04_oracle_sound : forall cfgs msgs ls,
   check_C04 (map c_link cfgs) (map c_local cfgs) (trace_of (run (init cfgs msgs) ls)) = true).
@@ -226,3 +255,7 @@ Print Assumptions C04_no_stranger_events.
 Print Assumptions C04_classification.
 Print Assumptions C04_prestart_failure_silent.
 Print Assumptions C04_containment.
+Print Assumptions C04_terminal_first_sound.
+Print Assumptions C04_terminal_first_driver_programs.
+Print Assumptions C04_join_sound.
+Print Assumptions C04_join_driver_programs.
